@@ -67,8 +67,13 @@ def main():
                 rc, out = run([os.path.join(HERE, "check"), p, "--tier", a.tier, "--no-evidence", "--no-shrink"],
                               env=dict(env, PETL_REPO=patched, PV_NPROC="8"))
                 lines = [ln for ln in out.splitlines() if "bucket" in ln or "HARNESS" in ln or ("regress" in ln and "fails" in ln)]
+                import re
+                counts = [int(x) for ln in out.splitlines() if "  bucket " in ln for x in re.findall(r"\(x(\d+)\):", ln)[:1]]
                 res["checks"][p] = {"exit": rc, "verdict": {0: "MISSED", 1: "caught", 2: "harness-error"}.get(rc, str(rc)),
-                                    "first": [ln.strip()[:300] for ln in lines[:2]]}
+                                    "first": [ln.strip()[:300] for ln in lines[:2]],
+                                    # robustness of the detection: failure buckets, failing generated cases, pinned cases failing
+                                    "buckets": len(counts), "failing_cases": sum(counts),
+                                    "regress_failing": sum(1 for ln in out.splitlines() if "regress" in ln and "fails" in ln)}
     finally:
         shutil.rmtree(root, ignore_errors=True)
     ok = res["demo_clean"] == 0 and res["patch_applies"] and res["demo_patched"] not in (0, None) and (
